@@ -275,3 +275,509 @@ func phiAlternatives(p *an.Prog, v ssa.Value, depth int) []phiAlt {
 	}
 	return out
 }
+
+// ruleLedgerPathErrorsPropagate (C18, C01): in every error-returning wallet function that runs inside the follower's
+// write transactions (block connect, start-up catch-up, received transaction), a failed storage call ends the function
+// with an error. Logging the error and going on (continue / fall through) lets the transaction commit without the data
+// the failed read or write stood for: the block counts as applied and is never retried.
+func ruleLedgerPathErrorsPropagate(c *report.Ctx) {
+	p := c.P
+	c.Rule("ledger-path-errors-propagate", "in functions reached from the follower's write transactions (processConnectedBlock, Start, onRelevantTx) that can return an error, no success return and no further loop iteration is reachable from the error edge of a storage call unless the error is classified first (compared with a sentinel): a storage fault must abort the step, not skip a wallet or a record", 60)
+	ifm, srcs := storageSources(p)
+	_, _, us, _ := updateSites(c)
+	var roots []*ssa.Function
+	for _, s := range us {
+		if s.Closure == nil {
+			continue
+		}
+		switch nm(an.Outermost(s.Caller)) {
+		case "processConnectedBlock", "Start", "onRelevantTx":
+			roots = append(roots, s.Closure)
+		}
+	}
+	if len(roots) == 0 {
+		c.Lost("Update closures of processConnectedBlock / Start / onRelevantTx")
+		return
+	}
+	reached, _ := p.ReachNil(roots, an.ReachOpts{})
+	var fs []*ssa.Function
+	for f := range reached {
+		pk := an.FuncPkg(f)
+		if pk == nil || f.Blocks == nil || !(pk.Path() == pkgWallet || pk.Path() == pkgTxmgr) {
+			continue
+		}
+		res := f.Signature.Results()
+		if res.Len() == 0 || !an.IsErrorType(res.At(res.Len()-1).Type()) {
+			continue
+		}
+		fs = append(fs, f)
+	}
+	sortFuncs(fs)
+	for _, f := range fs {
+		cnt := map[string]int{}
+		for _, b := range f.Blocks {
+			for _, in := range b.Instrs {
+				call, ok := in.(*ssa.Call)
+				if !ok {
+					continue
+				}
+				isSrc := false
+				if call.Call.IsInvoke() {
+					isSrc = ifm[call.Call.Method] || ifaceByName(ifm, call.Call.Method)
+				} else if cal := call.Call.StaticCallee(); cal != nil {
+					isSrc = srcs[cal]
+				}
+				if !isSrc {
+					continue
+				}
+				errVal := errResultOf(call)
+				if errVal == nil {
+					continue
+				}
+				name := calleeName(p, call)
+				cnt[name]++
+				key := siteKey(f, "error-of:"+name, cnt[name])
+				if errClassified(errVal, 0) {
+					c.OK(key, "the error is classified (compared with a sentinel) before the function goes on", posOf(c, call))
+					continue
+				}
+				succ := map[*ssa.BasicBlock]bool{}
+				for _, sb := range p.SuccessBlocks(call) {
+					succ[sb] = true
+				}
+				if len(succ) == 0 {
+					continue // the error is returned or handed on unbranched; storage-error-used judges dropped ones
+				}
+				var wit []string
+				for sb := range succ {
+					ifb := sb.Preds[0]
+					for _, eb := range ifb.Succs {
+						if succ[eb] {
+							continue
+						}
+						srch := &an.Search{P: p, Fn: f, GoalReturn: func(r *ssa.Return, pred *ssa.BasicBlock) bool {
+							switch p.ClassifyReturn(r, pred) {
+							case an.RetSuccess:
+								return true
+							case an.RetMaybe:
+								if len(r.Results) == 0 {
+									return false
+								}
+								return !carriesValue(an.RetOperand(r, len(r.Results)-1), errVal, f, 0)
+							}
+							return false
+						}, CutEdge: func(from, to *ssa.BasicBlock) bool { return to == ifb }}
+						if w := srch.Run(eb, 0, ifb); w != nil {
+							wit = w
+						}
+					}
+				}
+				if wit != nil {
+					c.Fail(key, "after "+name+" failed the function can still return success (the error is logged or ignored and the loop/body goes on): inside the follower's write transaction this commits the block without what the failed call stood for — e.g. a ready wallet is skipped for the block and its payment is never recorded, nothing retries", posOf(c, call), wit...)
+				} else {
+					c.OK(key, "every path from the error edge ends in an error return", posOf(c, call))
+				}
+			}
+		}
+	}
+}
+
+// errClassified: is the error value compared with something other than nil (a sentinel), type-asserted, or handed to
+// errors.Is/As — i.e. does the code tell kinds of failure apart?
+func errClassified(v ssa.Value, depth int) bool {
+	if depth > 4 || v.Referrers() == nil {
+		return false
+	}
+	for _, r := range *v.Referrers() {
+		switch x := r.(type) {
+		case *ssa.BinOp:
+			if (x.Op == token.EQL || x.Op == token.NEQ) && !an.IsNilConst(x.X) && !an.IsNilConst(x.Y) {
+				return true
+			}
+		case *ssa.TypeAssert:
+			return true
+		case *ssa.Phi:
+			if errClassified(x, depth+1) {
+				return true
+			}
+		case *ssa.Store:
+			// stored into a local cell: look at the loads of that cell
+			if a, ok := x.Addr.(*ssa.Alloc); ok {
+				for _, rr := range *a.Referrers() {
+					if u, ok := rr.(*ssa.UnOp); ok && u.Op == token.MUL && errClassified(u, depth+1) {
+						return true
+					}
+				}
+			}
+		case *ssa.Call:
+			if cal := x.Call.StaticCallee(); cal != nil {
+				k := an.CanonKeyOf(cal)
+				if k == "errors.Is" || k == "errors.As" {
+					return true
+				}
+			}
+		}
+	}
+	return false
+}
+
+func sortFuncs(fs []*ssa.Function) {
+	for i := 1; i < len(fs); i++ {
+		for j := i; j > 0 && sk(fs[j]) < sk(fs[j-1]); j-- {
+			fs[j], fs[j-1] = fs[j-1], fs[j]
+		}
+	}
+}
+
+// ruleReorgReachesNewTip (C01): reorg may report success only after it made the announced block the wallet's tip.
+func ruleReorgReachesNewTip(c *report.Ctx) {
+	p := c.P
+	c.Rule("reorg-reaches-new-tip", "every success return of reorg is reached through filterBlock (the announced branch was connected), through disconnectBlock (the wallet was rolled back to the announced block) or over the branch on which the wallet's current tip — the currentBest the caller passed, or the synced block it was replaced with — has the announced block's hash: the caller stores the announced block as the in-memory tip after a success, so any other success leaves the in-memory tip and the synced-to chain apart and the next block is connected on the wrong parent", 1)
+	reorg := fn(c, pkgWallet, "NtfnsHandler", "reorg")
+	fb := fn(c, pkgWallet, "NtfnsHandler", "filterBlock")
+	db := fn(c, pkgWallet, "NtfnsHandler", "disconnectBlock")
+	if reorg == nil || fb == nil || db == nil {
+		return
+	}
+	bm := p.Type(pkgTxmgr, "BlockMeta")
+	var cur *ssa.Parameter
+	for _, par := range reorg.Params {
+		if n := an.NamedOf(par.Type()); n != nil && bm != nil && n.Obj() == bm.Obj() {
+			cur = par
+		}
+	}
+	if cur == nil {
+		c.Fail(sk(reorg)+":currentBest", "reorg no longer receives the wallet's current tip as a txmgr.BlockMeta (anchor lost)", p.Pos(reorg.Pos()))
+		return
+	}
+	// the cell the parameter lives in (it is assigned in the body)
+	var cell ssa.Value
+	for _, r := range *cur.Referrers() {
+		if st, ok := r.(*ssa.Store); ok && st.Val == ssa.Value(cur) {
+			cell = st.Addr
+		}
+	}
+	isTipHash := func(v ssa.Value) bool {
+		// load of <currentBest>.Hash, or a field read of the parameter value
+		switch x := v.(type) {
+		case *ssa.UnOp:
+			if fa, ok := x.X.(*ssa.FieldAddr); ok && cell != nil && fa.X == cell {
+				return true
+			}
+		case *ssa.Field:
+			return x.X == ssa.Value(cur)
+		}
+		return false
+	}
+	isBlockHash := func(v ssa.Value) bool {
+		call, ok := v.(*ssa.Call)
+		return ok && call.Call.StaticCallee() != nil && strings.HasSuffix(an.CanonKeyOf(call.Call.StaticCallee()), "wire.MsgBlock).BlockHash")
+	}
+	s := &an.Search{P: p, Fn: reorg, Cut: cutCalls(p, an.Set(fb, db)),
+		GoalReturn: func(r *ssa.Return, pred *ssa.BasicBlock) bool { return p.ClassifyReturn(r, pred) != an.RetError },
+		CutEdge: func(from, to *ssa.BasicBlock) bool {
+			ifi, ok := from.Instrs[len(from.Instrs)-1].(*ssa.If)
+			if !ok {
+				return false
+			}
+			for _, a := range p.GuardsOnEdge(from, to) {
+				if a.If != ifi || a.Op != token.EQL || a.X == nil || a.Y == nil {
+					continue
+				}
+				if (isTipHash(a.X) && isBlockHash(a.Y)) || (isTipHash(a.Y) && isBlockHash(a.X)) {
+					return true
+				}
+			}
+			return false
+		}}
+	if w := s.Run(reorg.Blocks[0], 0, nil); w != nil {
+		c.Fail(sk(reorg)+":success=>new-tip", "reorg can return success without having connected the announced branch, rolled back to the announced block, or found the wallet's tip to be that block: processConnectedBlock then stores the announced block as in-memory tip while the synced-to chain still ends elsewhere — the next tip is treated as a plain extension, re-connects an applied block ('duplicated credit') and the follower is stuck", p.Pos(reorg.Pos()), w...)
+	} else {
+		c.OK(sk(reorg)+":success=>new-tip", "every success passes filterBlock / disconnectBlock / the tip-hash equality", p.Pos(reorg.Pos()))
+	}
+}
+
+// perIterationOverField: f ranges over the slice field `fname` of `named`; each iteration must pass a call to set
+// before the next one starts (error returns leave the transaction).
+func perIterationOverField(c *report.Ctx, f *ssa.Function, named *types.Named, fname string, set map[*ssa.Function]bool, what, consequence string) {
+	if f == nil || named == nil {
+		return
+	}
+	p := c.P
+	construct := sk(f) + "=>each-" + fname + ":" + what
+	var start ssa.Instruction
+	an.Instrs(f, func(in ssa.Instruction) {
+		ia, ok := in.(*ssa.IndexAddr)
+		if !ok || start != nil {
+			return
+		}
+		if ld, ok := ia.X.(*ssa.UnOp); ok && isFieldLoad(ld, named, fname) {
+			start = in
+		}
+	})
+	if start == nil {
+		c.Fail(construct, "no loop over "+named.Obj().Name()+"."+fname+" found (anchor lost)", p.Pos(f.Pos()))
+		return
+	}
+	hdr := loopHeaderOf(start.Block())
+	if hdr == nil {
+		c.Fail(construct, "the element access of "+fname+" is not inside a loop", posOf(c, start))
+		return
+	}
+	idx := 0
+	for i, in := range start.Block().Instrs {
+		if in == start {
+			idx = i
+		}
+	}
+	if w := p.ReachBlockWithout(start.Block(), idx, nil, func(b, pred *ssa.BasicBlock) bool { return b == hdr }, cutCalls(p, set)); w != nil {
+		c.Fail(construct, "an iteration over "+fname+" can go on to the next element without "+what+": "+consequence, posOf(c, start), w...)
+		return
+	}
+	c.OK(construct, "every iteration passes "+what, posOf(c, start))
+}
+
+// ruleEveryRelevantOutputCredited (C01): what the relevance filter selected is recorded — no output is skipped.
+func ruleEveryRelevantOutputCredited(c *report.Ctx) {
+	p := c.P
+	c.Rule("every-relevant-output-credited", "AddCredits / addUnminedCredits record every element of TxRecord.RelevantTxOut (credit row and, for mined ones, unspent row) or fail: the filter treats a later spend of any relevant output as the wallet's input, so an output skipped here (by value, class, …) makes that spend fail with ErrUnexpectedCreditNotFound and stalls the follower", 3)
+	rec := p.Type(pkgTxmgr, "TxRecord")
+	ac := fn(c, pkgTxmgr, "UtxoStore", "AddCredits")
+	auc := fn(c, pkgTxmgr, "UtxoStore", "addUnminedCredits")
+	putCred := fn(c, pkgTxmgr, "", "putRawCredit")
+	putUnsp := fn(c, pkgTxmgr, "", "putUnspent")
+	putUCred := fn(c, pkgTxmgr, "", "putRawUnminedCredit")
+	why := "a later spend of the skipped output is still treated as this wallet's input and fails the whole block"
+	perIterationOverField(c, ac, rec, "RelevantTxOut", an.Set(putCred), "putRawCredit", why)
+	perIterationOverField(c, ac, rec, "RelevantTxOut", an.Set(putUnsp), "putUnspent", why)
+	perIterationOverField(c, auc, rec, "RelevantTxOut", an.Set(putUCred), "putRawUnminedCredit", why)
+}
+
+// ruleReservationCacheOwnership (C02): a reservation leaves the used-coin cache only by expiry or by the per-outpoint release.
+func ruleReservationCacheOwnership(c *report.Ctx) {
+	p := c.P
+	c.Rule("reservation-cache-ownership", "the used-coin cache (WalletManager.usedCache) is only filled per outpoint (Set), queried (Get) and released per outpoint (Delete of an outpoint's key); nothing empties or replaces it wholesale (Flush, DeleteExpired, a new cache stored into the field): a draft's reservation must outlive wallet switches and other requests until it expires or its own transaction is sent or cleared", 3)
+	wm := p.Type(pkgWallet, "WalletManager")
+	if wm == nil {
+		c.Lost("masswallet.WalletManager")
+		return
+	}
+	n := 0
+	for _, f := range p.ModFuncs {
+		pk := an.FuncPkg(f)
+		if pk == nil || !strings.HasPrefix(pk.Path(), pkgMain) {
+			continue
+		}
+		cnt := map[string]int{}
+		an.Instrs(f, func(in ssa.Instruction) {
+			// replacing the cache object
+			if st, ok := in.(*ssa.Store); ok && addrRootsAtField(st.Addr, wm, "usedCache") {
+				n++
+				if nm(apiOwnerOrSelf(p, f)) == "NewWalletManager" {
+					c.OK(sk(f)+":usedCache=", "created once by the constructor", posOf(c, in))
+				} else {
+					c.Fail(sk(f)+":usedCache=", "the used-coin cache is replaced outside the constructor: every outstanding draft's reservation is forgotten", posOf(c, in))
+				}
+				return
+			}
+			cc := an.CallOf(in)
+			if cc == nil || cc.IsInvoke() || cc.StaticCallee() == nil || len(cc.Args) == 0 {
+				return
+			}
+			recv := cc.Args[0]
+			isCache := false
+			for i := 0; i < 4 && !isCache; i++ { // the methods are promoted from an embedded struct: usedCache.cache
+				ld, ok := recv.(*ssa.UnOp)
+				if !ok || ld.Op != token.MUL {
+					break
+				}
+				if isFieldLoad(ld, wm, "usedCache") {
+					isCache = true
+					break
+				}
+				fa, ok := ld.X.(*ssa.FieldAddr)
+				if !ok {
+					break
+				}
+				recv = fa.X
+			}
+			if !isCache {
+				return
+			}
+			n++
+			m := cc.StaticCallee().Name()
+			cnt[m]++
+			key := siteKey(f, "usedCache."+m, cnt[m])
+			switch m {
+			case "Set", "SetDefault", "Add", "Get", "GetWithExpiration", "ItemCount", "Items":
+				c.OK(key, "per-outpoint fill / query", posOf(c, in))
+			case "Delete":
+				d := ""
+				if len(cc.Args) > 1 {
+					d = p.Desc(cc.Args[1])
+				}
+				if strings.Contains(d, "OutPoint).String(") || strings.Contains(d, "OutPoint.String(") {
+					c.OK(key, "release of one outpoint's mark", posOf(c, in), d)
+				} else {
+					c.Fail(key, "a used-coin mark is deleted under a key that is not one outpoint's ("+d+")", posOf(c, in))
+				}
+			default:
+				c.Fail(key, "the used-coin cache is emptied or rewritten wholesale ("+m+"): reservations of drafts that are still outstanding are forgotten, and the next creation call can select a coin an earlier draft already spends", posOf(c, in))
+			}
+		})
+	}
+	if n == 0 {
+		c.Fail("WalletManager.usedCache", "no use of the used-coin cache found (anchor lost)", "")
+	}
+}
+
+// ruleMasterKeyWipeAfterSuccess (C05): a function that checks a passphrase wipes the manager's master key only on the
+// path on which the check succeeded.
+func ruleMasterKeyWipeAfterSuccess(c *report.Ctx, G map[*ssa.Function]bool) {
+	p := c.P
+	c.Rule("master-key-wipe-after-success", "in a keystore function that performs a passphrase check, a wipe of AddrManager.masterKeyPriv (SecretKey.Zero, immediate or deferred) is dominated by the success of that check: while the manager is unlocked the check only compares a salted hash and does not derive the key, so a wipe that also runs for a refused attempt destroys the unlocked session's genuine master key (GetMnemonic / ExportKeystore / ChangePrivPassphrase with the right passphrase then fail) — a refused attempt must alter nothing", 2)
+	am := p.Type(pkgKeystore, "AddrManager")
+	if am == nil {
+		c.Lost("keystore.AddrManager")
+		return
+	}
+	for _, f := range p.ModFuncs {
+		if pk := an.FuncPkg(f); pk == nil || pk.Path() != pkgKeystore {
+			continue
+		}
+		n := 0
+		an.Instrs(f, func(in ssa.Instruction) {
+			cc := an.CallOf(in)
+			if cc == nil || cc.StaticCallee() == nil || len(cc.Args) == 0 || !strings.HasSuffix(an.CanonKeyOf(cc.StaticCallee()), "snacl.SecretKey).Zero") {
+				return
+			}
+			ld, ok := cc.Args[0].(*ssa.UnOp)
+			if !ok || !isFieldLoad(ld, am, "masterKeyPriv") {
+				return
+			}
+			n++
+			key := siteKey(f, "masterKeyPriv.Zero", n)
+			checks := p.CallSitesTo(f, G)
+			if len(checks) == 0 {
+				c.OK(key, "no passphrase check in this function (lock / clear path)", posOf(c, in))
+				return
+			}
+			if p.DominatedBySuccess(in, G) != nil {
+				c.OK(key, "after the passphrase check succeeded", posOf(c, in))
+				return
+			}
+			how := "called"
+			if _, d := in.(*ssa.Defer); d {
+				how = "deferred"
+			}
+			c.Fail(key, "the master key is wiped ("+how+") on a path on which the passphrase check of this function has not succeeded: a refused attempt made while the wallet is unlocked wipes the session's genuine master key, and the right passphrase stops working until the wallet is locked again", posOf(c, in))
+		})
+	}
+}
+
+// rulePassphraseHashedWhole (C03, C05): the passphrase check looks at every byte the caller gave.
+func rulePassphraseHashedWhole(c *report.Ctx) {
+	p := c.P
+	c.Rule("passphrase-hashed-whole", "in the passphrase checks (AddrManager.checkPassword, SecretKey.DeriveKey/deriveKey and the salted-hash producers) the passphrase bytes reach the hash / KDF whole: they are never copied into a fixed-size buffer and never sliced to a constant bound — a truncating copy makes every passphrase that merely starts with the right one pass the unlocked-state comparison", 3)
+	var fs []*ssa.Function
+	for _, spec := range [][3]string{{pkgKeystore, "AddrManager", "checkPassword"}, {pkgSnacl, "SecretKey", "DeriveKey"}, {pkgSnacl, "SecretKey", "deriveKey"}} {
+		if f := fn(c, spec[0], spec[1], spec[2]); f != nil {
+			fs = append(fs, f)
+		}
+	}
+	// producers of the salted hash the unlocked comparison is made against
+	am := p.Type(pkgKeystore, "AddrManager")
+	for _, f := range p.ModFuncs {
+		if pk := an.FuncPkg(f); pk == nil || pk.Path() != pkgKeystore || am == nil {
+			continue
+		}
+		if len(fieldStoresAny(f, am, "hashedPrivPassphrase")) > 0 {
+			dup := false
+			for _, g := range fs {
+				if g == f {
+					dup = true
+				}
+			}
+			if !dup {
+				fs = append(fs, f)
+			}
+		}
+	}
+	fromParam := func(v ssa.Value) *ssa.Parameter {
+		for i := 0; i < 6; i++ {
+			v = an.ResolveCell(v) // a parameter whose address is taken lives in a cell
+			switch x := v.(type) {
+			case *ssa.Parameter:
+				if bt, ok := x.Type().Underlying().(*types.Slice); ok {
+					if b, ok := bt.Elem().Underlying().(*types.Basic); ok && b.Kind() == types.Byte {
+						return x
+					}
+				}
+				if pt, ok := x.Type().Underlying().(*types.Pointer); ok {
+					if bt, ok := pt.Elem().Underlying().(*types.Slice); ok {
+						if b, ok := bt.Elem().Underlying().(*types.Basic); ok && b.Kind() == types.Byte {
+							return x
+						}
+					}
+				}
+				return nil
+			case *ssa.UnOp:
+				v = x.X
+			case *ssa.Slice:
+				v = x.X
+			case *ssa.ChangeType:
+				v = x.X
+			case *ssa.Convert:
+				v = x.X
+			default:
+				return nil
+			}
+		}
+		return nil
+	}
+	fixedDst := func(v ssa.Value) bool {
+		for i := 0; i < 6; i++ {
+			switch x := v.(type) {
+			case *ssa.Slice:
+				if pt, ok := x.X.Type().Underlying().(*types.Pointer); ok {
+					if _, isArr := pt.Elem().Underlying().(*types.Array); isArr {
+						return true
+					}
+				}
+				v = x.X
+			default:
+				return false
+			}
+		}
+		return false
+	}
+	for _, f := range fs {
+		n, bad := 0, 0
+		an.Instrs(f, func(in ssa.Instruction) {
+			switch x := in.(type) {
+			case *ssa.Call:
+				if b, ok := x.Call.Value.(*ssa.Builtin); ok && b.Name() == "copy" && len(x.Call.Args) == 2 {
+					if par := fromParam(x.Call.Args[1]); par != nil {
+						n++
+						if fixedDst(x.Call.Args[0]) {
+							bad++
+							c.Fail(siteKey(f, "copy(fixed,"+par.Name()+")", bad), "the passphrase is copied into a fixed-size buffer before it is hashed: copy truncates silently, so the comparison is made on a prefix and a longer wrong passphrase with the right beginning is accepted", posOf(c, in))
+						}
+					}
+				}
+			case *ssa.Slice:
+				if par := fromParam(x.X); par != nil {
+					n++
+					if k, ok := x.High.(*ssa.Const); ok && k.Value != nil {
+						bad++
+						c.Fail(siteKey(f, par.Name()+"[:const]", bad), "the passphrase is cut to a constant length before it is hashed: a longer wrong passphrase with the right beginning is accepted", posOf(c, in))
+					}
+				}
+			}
+		})
+		if bad == 0 {
+			c.OK(sk(f)+":passphrase-whole", "no truncating copy or constant re-slice of the passphrase", p.Pos(f.Pos()))
+		}
+		_ = n
+	}
+}
